@@ -619,7 +619,9 @@ fn check_subset(case: &Case, obs: &mut Obs) {
         st.x = renorm(&idx.iter().map(|&i| case.state.x[i]).collect::<Vec<_>>());
         let inp = try_discard!(obs, "inputs", state_inputs(&ds, &direct, &st));
         let d = try_discard!(obs, "direct state", props(&direct, &inp, &[]));
-        if !d.a.0.is_finite() {
+        if !d.a.0.is_finite() || !d.a.1.is_finite() {
+            // (a NaN scale with a finite value: the f64 route of the association solver did not
+            // converge while the dual-number route did - finding C11/association-nonconvergence-flips-with-route)
             obs.discard(format!("non-finite A_res:{:?}", spec.family));
             continue;
         }
